@@ -348,14 +348,16 @@ class C05(Prop):
         "C05_images_idempotent_partial": "hypothesis Uniq (identity collisions): automatic from 1.1 on (C05_images_uniq_from_1_1), a real "
                                          "restriction for <= 1.0 documents (F11, C05_images_F11_witness); equality of the re-read manifest is "
                                          "as multisets of filings (C02), byte equality of the second text is validated per case",
-        "C05_ci_loaded_is_normal_partial": "compose/release sections valid and WellKeyed are proved for every version; validity of every variant "
-                                           "against its parent and the sorted order of children are not (validated per case)",
-        "C05_ci_idempotent_partial": "hypothesis 'the writer accepts the loaded object' (serialize x = ok j) is explicit; that every loaded "
-                                     "object is writable (a document holding one UID twice at different levels is not: F14) is validated per "
-                                     "case, not proved",
-        "C05_ti_loaded_is_normal_partial": "per-section validity and current header for every version incl. 0.0; no Lean idempotence theorem for "
-                                           "treeinfo because C04 has no reader-half theorem to compose with: idempotence is proved on witnesses "
-                                           "(0.3, 0.0) and validated on every fixture / generated file",
+        "C05_ci_loaded_is_normal_partial": "proved for every version and depth: sections and base product valid, every variant valid against "
+                                           "its parent (ValidVs), variant releases valid, WellKeyed; C01's Normal (final only with a label, "
+                                           "sorted children) is false of what the reader returns (C05_ci_loaded_not_normal_witness) and is "
+                                           "settled by the first write",
+        "C05_ti_loaded_is_normal_partial": "per-section validity and current header for every version incl. 0.0; per-variant validity below "
+                                           "the container is not stated (C05_ti_idempotent carries ReadValid of the normal form instead)",
+        "C05_ti_idempotent": "full statement for every header version; hypotheses are the decidable side conditions of C04_tree_bytes that a "
+                             "load does not establish (F17 timestamp, F24 top-level addon, F25 platform name, comma-free non-empty distinct "
+                             "UIDs / platforms, text representability, ReadValid of the normal form); timestamp integrality, UID keying, "
+                             "ChecksumsOK and image keys are discharged from the legacy reader",
         "C05_ci_upgrade_witness": "faithfulness for composeinfo is proved per section / on witnesses (C05_ci_upgrade_witness, "
                         "C05_ci_faithful_product_not_internal); the general forest theorem deserialize_v (down_v x) = ok (expect_v x) is "
                         "not proved (validated per case by the spec-level down-converter)",
